@@ -470,6 +470,15 @@ func (a *area) scenario(r *hx.Rng, emit func(string)) int {
 			if r.Bool() {
 				op = strings.Replace(op, " "+strings.Fields(op)[1]+" ", " "+nn+" ", 1)
 			}
+			if r.Chance(1, 2) { // deeper nesting: the notifications armed first re-enter and pop the following operations
+				for k := r.Range(1, 3); k > 0; k-- {
+					if r.Chance(2, 3) {
+						e("arm " + nn + " notify " + nn + " " + hexName(nm))
+					} else {
+						e("arm " + nn + " start " + nn)
+					}
+				}
+			}
 			e("arm " + nn + " " + op)
 			e("notify " + nn + " " + hexName(nm))
 			e("notify " + nn + " " + hexName(nm+".k"))
